@@ -64,6 +64,29 @@ template <class T> static inline quad EPS () { return (quad) FInfo<T>::eps (); }
 static const long double              PI_L = 3.14159265358979323846264338327950288L;
 static inline long double             pow10neg (int k) { return powl (10.0L, -(long double) k); }
 
+// Sequenced draw helpers.  The order of evaluation of function arguments and of the operands of an operator is
+// unspecified (g++ and clang++ differ), and a replay must decode to the same case under both compilers, so an
+// expression may contain at most ONE draw; everything else goes through these helpers or separate statements.
+static inline long double draw_sign (vp::Src& s) { return s.coin () ? 1.0L : -1.0L; }
+static inline long double draw_pow10 (vp::Src& s, int maxk, int off = 0) // 10^-(k+off), k in [0,maxk]
+{
+    int k = (int) s.below (maxk + 1);
+    return pow10neg (k + off);
+}
+static inline long double draw_signed_pow10 (vp::Src& s, int maxk, int off = 0)
+{
+    long double sg = draw_sign (s);
+    long double p  = draw_pow10 (s, maxk, off);
+    return sg * p;
+}
+template <class T, class F> static inline Vec3<T> draw_vec3 (F f)
+{
+    T a = f ();
+    T b = f ();
+    T c = f ();
+    return Vec3<T> (a, b, c);
+}
+
 // ------------------------------------------------------------------ the 24 orders
 struct OrderInfo
 {
@@ -208,11 +231,15 @@ template <class T> static T gen_angle (vp::Src& s)
         case 2: return (T) s.uniform (-6 * 3.141592653589793, 6 * 3.141592653589793);
         case 3: {
             long double a = (long double) s.range (-12, 12) * PI_L / 2;
-            if (s.coin ()) a += (s.coin () ? 1 : -1) * pow10neg ((int) s.below (TN<T>::maxk () + 1) + 1);
+            if (s.coin ()) a += draw_signed_pow10 (s, TN<T>::maxk (), 1);
             return (T) a;
         }
         case 4: return (T) s.range (-7, 7);
-        case 5: return (T) ((s.coin () ? 1 : -1) * pow10neg ((int) s.below (TN<T>::maxk () + 1)) * (1 + (long double) s.unit ()));
+        case 5: {
+            long double v = draw_signed_pow10 (s, TN<T>::maxk ());
+            long double m = 1 + (long double) s.unit ();
+            return (T) (v * m);
+        }
         default: return (T) s.uniform (-3.141592653589793, 3.141592653589793);
     }
 }
@@ -223,7 +250,7 @@ template <class T> static T gen_gimbal (vp::Src& s, bool repeated)
     if (s.coin ()) base = -base;
     if (s.chance (48)) base += 2 * PI_L * (long double) s.range (-2, 2);
     int         k = (int) s.below (TN<T>::maxk () + 3);
-    long double d = k > TN<T>::maxk () ? 0 : pow10neg (k + 1) * (s.coin () ? 1 : -1);
+    long double d = k > TN<T>::maxk () ? 0 : pow10neg (k + 1) * draw_sign (s);
     return (T) (base + d);
 }
 static inline bool near_gimbal (const OrderInfo& o, quad mid, quad tol)
@@ -602,10 +629,13 @@ template <class T> static void free_extract_case (vp::Ctx& c)
     // ---- 4x4
     {
         bool    gim = s.chance (96);
-        Vec3<T> a (gen_angle<T> (s), gim ? gen_gimbal<T> (s, false) : gen_angle<T> (s), gen_angle<T> (s));
+        Vec3<T> a;
+        a.x = gen_angle<T> (s);
+        a.y = gim ? gen_gimbal<T> (s, false) : gen_angle<T> (s);
+        a.z = gen_angle<T> (s);
         if (gim) c.label (L3_GIMBAL);
         T       sc = gen_scale<T> (s, c, L3_SCALED);
-        Vec3<T> tr (gen::nice<T> (s), gen::nice<T> (s), gen::nice<T> (s));
+        Vec3<T> tr = draw_vec3<T> ([&] { return gen::nice<T> (s); });
         VP_NOTE (c, TN<T>::e () << " extractEulerXYZ/ZYX angles " << vs (a) << " scale " << sc << " translation " << vs (tr));
         c.nt (a.x != 0 && a.y != 0 && a.z != 0);
         for (int which = 0; which < 2; ++which)
@@ -649,8 +679,13 @@ template <class T> static void free_extract_case (vp::Ctx& c)
         switch (s.below (5))
         {
             case 0: r = (long double) s.range (-4, 4) * PI_L / 4; break;
-            case 1: r = (s.coin () ? 1 : -1) * (PI_L - pow10neg ((int) s.below (TN<T>::maxk () + 1) + 1)); c.label (L3_NEAR_PI_2D); break;
-            case 2: r = (s.coin () ? 1 : -1) * pow10neg ((int) s.below (TN<T>::maxk () + 1)); break;
+            case 1: {
+                long double sg = draw_sign (s);
+                r              = sg * (PI_L - draw_pow10 (s, TN<T>::maxk (), 1));
+                c.label (L3_NEAR_PI_2D);
+                break;
+            }
+            case 2: r = draw_signed_pow10 (s, TN<T>::maxk ()); break;
             default: r = PI_L * (2 * (long double) s.unit () - 1); break;
         }
         T rt = (T) r;
@@ -658,7 +693,9 @@ template <class T> static void free_extract_case (vp::Ctx& c)
         VP_NOTE (c, " 2-D angle " << rt << " [" << hexf (rt) << "] scale " << sc);
         quad cq = cosq ((quad) rt), sq = sinq ((quad) rt);
         Matrix22<T> M2 ((T) cq * sc, (T) sq * sc, (T) -sq * sc, (T) cq * sc);
-        Matrix33<T> M3 ((T) cq * sc, (T) sq * sc, 0, (T) -sq * sc, (T) cq * sc, 0, gen::nice<T> (s), gen::nice<T> (s), 1);
+        T           tx = gen::nice<T> (s);
+        T           ty = gen::nice<T> (s);
+        Matrix33<T> M3 ((T) cq * sc, (T) sq * sc, 0, (T) -sq * sc, (T) cq * sc, 0, tx, ty, 1);
         Matrix22<T> B2;
         B2.setRotation (rt);
         Matrix33<T> B3;
@@ -753,12 +790,15 @@ template <class T> static void make_near_case (vp::Ctx& c)
     typedef Euler<T> E;
     vp::Src&         s  = c.s;
     const quad       ef = (quad) FInfo<float>::eps ();
-    Vec3<T>          a (gen_angle<T> (s), s.chance (48) ? gen_gimbal<T> (s, false) : gen_angle<T> (s), gen_angle<T> (s));
-    Vec3<T>          t (gen_angle<T> (s), gen_angle<T> (s), gen_angle<T> (s));
+    Vec3<T>          a, t;
+    a.x = gen_angle<T> (s);
+    a.y = s.chance (48) ? gen_gimbal<T> (s, false) : gen_angle<T> (s);
+    a.z = gen_angle<T> (s);
+    t   = draw_vec3<T> ([&] { return gen_angle<T> (s); });
     if (s.chance (64))
     {
         // target close to the alternative representation (pi + x, pi - y, pi + z) of a (in ijk slots), so that it is the nearer one
-        t = Vec3<T> ((T) M_PI + a.x, (T) M_PI - a.y, (T) M_PI + a.z) + Vec3<T> ((T) s.uniform (-0.3, 0.3), (T) s.uniform (-0.3, 0.3), (T) s.uniform (-0.3, 0.3));
+        t = Vec3<T> ((T) M_PI + a.x, (T) M_PI - a.y, (T) M_PI + a.z) + draw_vec3<T> ([&] { return (T) s.uniform (-0.3, 0.3); });
     }
     int  tshift = s.chance (96) ? 1 + (int) s.below (23) : 0;
     quad big    = 1;
